@@ -541,5 +541,13 @@ def check(repo, rep, tier):
   c05.rule_data_unchanged(repo, rep)
   api.run_rule(repo, rep)
   rule_int_safe(repo, rep)
+  # the indices are interpreted by the preprocessor of THIS fit: the wrapper
+  # is rebuilt on every fit (typestate rule of C17, preprocessor_ only)
+  from . import c17
+  before = len(rep.obs)
+  c17.rule_history(repo, rep)
+  rep.obs[before:] = [o for o in rep.obs[before:]
+                      if 'preprocessor_' in o['construct'] or
+                      o['status'] == 'derived']
 
 
